@@ -302,8 +302,10 @@ def check_roundtrip(ctx, case):
     found = []
 
     def fail(form, what, msg):
-        if cls == 'bang':
-            key = 'roundtrip/sheetname-with-bang'
+        if form == 'abs' and what == 'shape':
+            key = 'roundtrip/abs/shape'                 # the coordinate part; nothing to do with the sheet
+        elif cls == 'bang' and what != 'shape':
+            key = 'roundtrip/sheetname-with-bang'       # printed text does not parse back
         elif what in ('sheet', 'exception', 'shape'):
             key = f'roundtrip/{form}/{what}/sheet:{cls}'
         else:
@@ -458,16 +460,16 @@ def check_notation(ctx, case):
                   right_type(got[1], spec) and got[1] == want)
             if ok:
                 continue
-            if cls == 'bang' and sheet_form in ('plain', 'quoted'):
-                key = 'roundtrip/sheetname-with-bang'
-            elif got[0] == 'v' and not isinstance(got[1], str) and desc(got[1])[1:] == spec[1:] and \
+            sheet_key = ('roundtrip/sheetname-with-bang' if cls == 'bang' else
+                         f'notation/sheet-prefix/{sheet_form}/sheet:{cls}')
+            if got[0] == 'v' and not isinstance(got[1], str) and desc(got[1])[1:] == spec[1:] and \
                     right_type(got[1], spec):
-                key = f'notation/sheet-prefix/{sheet_form}/sheet:{cls}'
-            elif got[0] == 'x' and sheet_form in ('plain', 'quoted') and cls != 'plain':
-                # decided by re-parsing the same body without the sheet prefix
+                key = sheet_key                        # right cells, wrong sheet
+            elif got[0] == 'x' and sheet_form in ('plain', 'quoted'):
+                # the sheet prefix is to blame iff the same body without it denotes the right cells
                 bare = attempt(lambda: P.AddressRange.create(body, cell=anchor))
                 if bare[0] == 'v' and not isinstance(bare[1], str) and desc(bare[1])[1:] == spec[1:]:
-                    key = f'notation/sheet-prefix/{sheet_form}/sheet:{cls}'
+                    key = sheet_key
                 else:
                     key = f'notation/{notation}'
             else:
@@ -694,12 +696,14 @@ def check_pair(ctx, case):
         ctx.count('pair_sheet_adoption')
     found = []
 
-    def key_for(op, what, string=False):
+    def key_for(op, what, string=False, got=None):
         name = OPNAME[op]
         if what == 'exception':
             return f'{name}/exception' + ('/text-operand' if string else '')
         if mismatch:
             return 'setop/sheet-mismatch'
+        if string and got == ('v', R.VALUE):
+            return f'setop/text-operand-sheet/sheet:{sheet_class(b[0])}'   # the sheet in the text was misread
         if what == 'sheet':
             return 'setop/sheet-adoption' if adoption else f'{name}/result-sheet'
         if what == 'wrong-result':
@@ -736,7 +740,8 @@ def check_pair(ctx, case):
                 ctx.count('pair_ops')
                 prob = result_problem(got, want)
                 if prob:
-                    found.append((key_for(op, prob[0], True), f'{expr} with a={a!r}: {prob[1]}, expected {want!r}'))
+                    found.append((key_for(op, prob[0], True, got),
+                                  f'{expr} with a={a!r}: {prob[1]}, expected {want!r}'))
     # absorption (only through intermediates that are addresses)
     if not mismatch:
         u = attempt(apply_op, '**', A, B)
